@@ -12,7 +12,7 @@ ACTIONS = ["Next"]
 
 def classify(c1, c2):
     """Shape of a pair of configurations (spec tokens) -- used for the mismatch signature only."""
-    diff = sorted(p for p in c1 if c1[p] != c2[p])
+    diff = sorted(p for p in c1 if c1[p] != c2[p] and p != "route")
     kinds = sorted(set(bind.kind(p) for p in diff))
     v1 = sorted(c1[p] for p in diff)
     v2 = sorted(c2[p] for p in diff)
@@ -24,7 +24,8 @@ def classify(c1, c2):
         shape = "cancel"        # equal values inside each configuration
     else:
         shape = "other"
-    return "%s:%s:%d" % (shape, "+".join(kinds), len(diff)), diff
+    routes = "+".join(sorted(set([c1.get("route", "flat"), c2.get("route", "flat")])))
+    return "%s:%s:%d:%s" % (shape, "+".join(kinds), len(diff), routes), diff
 
 
 def key_tier(ctx, behaviours, exe, env_base, flavours):
@@ -37,8 +38,13 @@ def key_tier(ctx, behaviours, exe, env_base, flavours):
     evaluations, pairs = 0, 0
     rnd = random.Random(ctx.seed)
     for fl in flavours:
-        for mode, steps in sorted(per_mode.items()):
-            items = [{"props": bind.props_text(s["cfg"], fl), "src": bind.source_text(s["cfg"]["source"])} for s in steps]
+        for mode, all_steps in sorted(per_mode.items()):
+            # routed configurations only in the flavours where an override replaces the whole value
+            steps = [s for s in all_steps if s["cfg"].get("route", "flat") == "flat" or fl in bind.OVERRIDE_SAFE]
+            items = []
+            for s in steps:
+                ptxt, dtxt = bind.props_text(s["cfg"], fl, mode)
+                items.append({"props": ptxt, "dev": dtxt, "src": bind.source_text(s["cfg"]["source"])})
             effs = [json.dumps(s["exp"]["ran"], sort_keys=True) for s in steps]
             runs = []
             for proc in range(2):
@@ -85,13 +91,30 @@ def key_tier(ctx, behaviours, exe, env_base, flavours):
                         cls, diff = classify(steps[ii[0]]["cfg"], steps[ii[1]]["cfg"])
                         ctx.mismatch("%s-collision:%s" % (what, cls),
                                      "%s: different build inputs share the cache %s %s: %s | %s (differ in %s)" %
-                                     (mode, what, v, items[ii[0]]["props"].replace("\n", " "), items[ii[1]]["props"].replace("\n", " "), diff),
+                                     (mode, what, v, items[ii[0]]["props"] + " dev " + items[ii[0]]["dev"], items[ii[1]]["props"] + " dev " + items[ii[1]]["dev"], diff),
                                      [{"mode": mode, "flavour": fl, "cfgs": [steps[i]["cfg"] for i in ii[:2]],
                                        "items": [items[i] for i in ii[:2]], "key": v}])
+            # equal effective inputs (through different routes) must resolve to the same entry
+            by_eff = {}
+            for i, e in enumerate(effs):
+                by_eff.setdefault(e, []).append(i)
+            for e, idx in by_eff.items():
+                ks = {}
+                for i in idx:
+                    ks.setdefault((k1[i], d1[i]), i)
+                if len(ks) > 1:
+                    ii = sorted(ks.values())
+                    c1, c2 = steps[ii[0]]["cfg"], steps[ii[1]]["cfg"]
+                    kinds = "+".join(sorted(set(bind.kind(p) for p in c1 if p not in ("route", "source") and (c1[p] != "e" or c2[p] != "e")))) or "none"
+                    ctx.mismatch("key-split:%s:%s+%s" % (kinds, c1.get("route"), c2.get("route")),
+                                 "%s: equal effective inputs get different cache entries %s / %s: props %s dev %s | props %s dev %s" %
+                                 (mode, k1[ii[0]][:16], k1[ii[1]][:16], items[ii[0]]["props"], items[ii[0]]["dev"],
+                                  items[ii[1]]["props"], items[ii[1]]["dev"]),
+                                 [{"mode": mode, "flavour": fl, "cfgs": [c1, c2], "items": [items[i] for i in ii[:2]]}])
             n = len(items)
             pairs += n * (n - 1) // 2
             if fl == flavours[0] and mode == "Serial":
-                ctx.samples += [{"cfg": {p: v for p, v in steps[i]["cfg"].items() if v != "e"}, "props": items[i]["props"], "key": k1[i][:16]}
+                ctx.samples += [{"cfg": {p: v for p, v in steps[i]["cfg"].items() if v != "e"}, "props": items[i]["props"], "dev": items[i]["dev"], "key": k1[i][:16]}
                                 for i in (0, n // 3, n - 1)]
     return evaluations, pairs
 
@@ -102,7 +125,12 @@ def run(ctx):
     r = ctx.tlc("mc/MC_KernelKey.tla", "mc/KernelKey_design.cfg", workers=4, coverage=True, deadlock=False)
     ctx.tlc_must_pass(r, "KernelKey design (tagged composition)")
     ctx.require_coverage(r, ACTIONS)
+    rr = ctx.tlc("mc/MC_KernelKey.tla", "mc/KernelKey_routes.cfg", workers=4, deadlock=False)
+    ctx.tlc_must_pass(rr, "KernelKey routes (every property through every route)")
     if thorough:
+        y = ctx.tlc("mc/MC_KernelKey.tla", "mc/KernelKey_rawhdr.cfg", workers=4, deadlock=False, expect_violation=True, count=False)
+        if y.violated not in ("RunsOwnConfig", "SameEntry", "KeySeparates"):
+            raise Broken("the raw-props header composition was not rejected by the model: rc=%s violated=%s" % (y.rc, y.violated))
         # the composition of the code as found must be rejected by the same invariants
         # (the model is sensitive to the defect class)
         x = ctx.tlc("mc/MC_KernelKey.tla", "mc/KernelKey_xor.cfg", workers=4, deadlock=False, expect_violation=True, count=False)
@@ -128,6 +156,7 @@ def run(ctx):
         "hashes are ideal in the model (different strings never collide); the replay compares real hash_t values",
         "value tokens e/a/b per input; a/b are concretised by the tables in checks/c06_bind.py (several flavours); at most %d inputs set at once in the replayed configurations" % (3 if thorough else 2),
         "process environment fixed and free of OCCA_CXX/OCCA_CXXFLAGS/OCCA_LDFLAGS/... overrides so that every listed property is effective",
+        "routes: all properties of one configuration take the same route (flat / modes/<mode> / generic+override / other mode / device kernel default / device kernel/modes/<mode> / device default + override); routed configurations have at most %d properties set and use the value flavours in which an override replaces the whole value" % (2 if thorough else 1),
         "devices: Serial and OpenMP (the only run-time modes compiled in); builds on different devices are not compared",
     ]
     # 3. build tier: real builds in fresh processes sharing one cache directory
